@@ -74,6 +74,8 @@ def write_replay(P, payload):
     h = hashlib.sha256(json.dumps(payload, sort_keys=True, default=str).encode()).hexdigest()[:12]
     path = os.path.join(core.REPLAYS, "%s-%s.json" % (P.pid, h))
     payload = dict(payload)
+    if isinstance(payload.get("observed"), (dict, list)) and len(json.dumps(payload["observed"], default=str)) > 2000000:
+        payload["observed"] = _shorten(payload["observed"])      # the case (the replay input) is kept in full; a multi-megabyte observation is abridged
     payload["property"] = P.pid
     payload["how_to_replay"] = "cd /verif && ./check %s --replay %s" % (P.pid, path)
     with open(path, "w") as fh:
